@@ -53,3 +53,7 @@ package server
 //@ trusted pure
 //@ func (se *SSEnv) GetFinalDir [C20]
 //@ trusted pure
+//@ func (se *SSEnv) RemoveFlagFile [C16]
+//@ trusted removes the flag file of a final snapshot directory (and syncs the directory)
+//@ func (se *SSEnv) RemoveFinalDir [C16]
+//@ trusted removes the final snapshot directory
